@@ -122,6 +122,12 @@ def judge_words(g, ref, n):
     got = []
     try:
         with core.step_budget(budget):
+            if n == 2 or n == 3:
+                # a caller may stop reading the enumeration early, edit the word it was given, and enumerate again
+                for w in g.get_words(n):
+                    w.append("<edited by the caller>")
+                    break
+                core.LOG.count("C12.abandoned_generators")
             for w in (g.get_words() if n is None else g.get_words(n)):
                 got.append(w)
     except core.StepBudgetExceeded:
@@ -174,6 +180,21 @@ def run_case(c, stats):
         fin = ref.is_finite()
         stats.cls("finite" if fin else "infinite")
         stats.cls("empty" if ref.is_empty() else "nonempty")
+    if (c["nv"] + len(c["prods"])) % 5 == 2 and len(c["prods"]) >= 2:
+        # bystanders queried first, in the same process: the same variables and terminals with one production less,
+        # and the same Production objects under another start symbol
+        from pyformlang.cfg import CFG, Variable
+        by = gcfg.build(dict(c, prods=c["prods"][:-1]))
+        for f in (by.is_empty, by.get_generating_symbols, by.get_nullable_symbols, by.is_finite):
+            call(f)
+        others = sorted(ref.variables - {ref.start}, key=repr)
+        if others and g.start_symbol is not None:
+            by2 = CFG(start_symbol=Variable(others[0]), productions=set(g.productions))
+            for f in (by2.is_empty, by2.get_reachable_symbols, by2.get_generating_symbols, by2.is_finite):
+                call(f)
+            with core.oracle_mode():
+                judge_words(by2, ref_of(by2), 2)
+        stats.cls("bystanders_first")
     order = [g.is_empty, g.is_finite, g.get_generating_symbols, g.get_nullable_symbols, g.get_reachable_symbols,
              lambda: bool(g)]
     k = c["nv"] + len(c["prods"])
